@@ -48,6 +48,7 @@ PAIRS = [
     ('C-N-O-C -> same 4 atoms with dihedral and improper reversed', 'CNOC', ['C', 'N', 'O', 'C'], [0 * STEP, 1 * STEP, 2 * STEP, 3 * STEP], [(0, 1)], [], [(3, 2, 1, 0)], [(3, 2, 0, 1)]),
     ('C-N-O -> O, N, C listed in reverse with a bond and an angle', 'CNO', ['O', 'N', 'C'], [2 * STEP, 1 * STEP, 0 * STEP], [(0, 1)], [(0, 1, 2)], [], []),
     ('C-N-O -> same elements, O displaced by 0.03 A (not the same atom) with a bond to it', 'CNO', ['C', 'N', 'O'], [0 * STEP, 1 * STEP, 2 * STEP + np.array([0.0, 0.03, 0.0])], [(1, 2)], [], [], []),
+    ('C-N-O -> F first, then the kept C, N, O (substituent listed before the anchors), bonds and angle on the inserted atom', 'CNO', ['F', 'C', 'N', 'O'], [(0.5, 0.9, 0.2), 0 * STEP, 1 * STEP, 2 * STEP], [(0, 1), (2, 1), (3, 2)], [(0, 1, 2)], [], []),
 ]
 SEARCH = {'CNO': ['C', 'N', 'O'], 'NOC': ['N', 'O', 'C'], 'O': ['O'], 'CNOC': ['C', 'N', 'O', 'C']}
 KF_SIG = 'CIF-workflow:pair-table-misaligned'
